@@ -31,7 +31,7 @@ CONSTANTS Listen,      \* listener configurations [chan |-> 0..15, addr |-> serv
           PayCi,       \* ... in "pay" behaviours (0 and 255 are values a run of user bytes could be mistaken to continue)
           ForeignLens, \* address lengths of the neighbour services whose units are damaged
           Bursts,      \* lengths of loss bursts (runs of consecutive lost packets of the selected service), each < 256
-          Modes,       \* packet alphabets used: subset of {"cont", "unit", "pay"}
+          Modes,       \* packet alphabets used: subset of {"cont", "unit", "pay", "mix"}
           MaxPk        \* length of "cont" behaviours
 
 VARIABLES lst,      \* the listener configuration of this behaviour
@@ -160,11 +160,21 @@ PlainItems(l) == {Item(Dest(l), f, MinLen(l), FALSE, P0, NoFault) : f \in Format
 PayItems(l) ==
   {Item(Dest(l), f, s, FALSE, [pat |-> p, trail |-> t], NoFault) : f \in Formats, s \in FitLens(l), p \in Pays, t \in BOOLEAN}
 
-ModeLen(m) == CASE m = "cont" -> MaxPk [] m = "unit" -> 3 [] m = "pay" -> 1
+\* "mix": UNRELATED TELETEXT PACKETS between two intact packets of the selected service.  Bytes 0 / 1 of every Teletext packet
+\* carry magazine and packet number, for the IDL receiver "channel" (= magazine + 8 * (packet number odd), magazine 8 = 0) and
+\* "designation" (= packet number \div 2; 15 = packets 30 / 31 = an IDL channel).  Kinds [mag 1..8, no 0..31]: page headers
+\* X/0, rows X/1..X/25, enhancement packets X/26..X/28, M/29 in every magazine, and the packets 30 / 31 of every OTHER channel
+\* (8/30 = channel 0: broadcast service data, 8/31 ... other IDL channels).  Behind the two address bytes each of them looks
+\* exactly like the next packet of the selected service (format, address, continuity indicator, data, CRC): taking it for one
+\* shows as a delivery and as a wrong flag on the following packet.
+ChanOf(k) == (k.mag % 8) + (8 * (k.no % 2))
+MixKinds(l) == {k \in [mag : 1..8, no : 0..31] : k.no < 30 \/ ChanOf(k) # l.chan}
+ModeLen(m) == CASE m = "cont" -> MaxPk [] m = "unit" -> 3 [] m = "pay" -> 1 [] m = "mix" -> 3
 \* the last packet of a "cont" behaviour shows the flags: it is intact (unless ContFull)
 Stage(m, k, l) == CASE m = "cont" -> (IF k = MaxPk /\ ~ContFull THEN {it \in ContItems(l) : it.flt = NoFault /\ it.dest = Dest(l)} ELSE ContItems(l))
                     [] m = "unit" -> (IF k = 2 THEN UnitItems(l) ELSE IF k = 1 THEN {Item(Dest(l), 4, MinLen(l), FALSE, P0, NoFault)} ELSE PlainItems(l))
                     [] m = "pay"  -> PayItems(l)
+                    [] m = "mix"  -> (IF k = 2 THEN {} ELSE IF k = 1 THEN {Item(Dest(l), 4, MinLen(l), FALSE, P0, NoFault)} ELSE PlainItems(l))
 
 -----------------------------------------------------------------------------
 (* reference receiver: what it can read of an arriving packet *)
@@ -193,7 +203,7 @@ Own(l, it) == it.dest = Dest(l) /\ it.fmt % 2 = 0 /\ it.spalen # 7
 \* the payload behaviours need one listener only (the one whose address fits the most address lengths)
 Init == /\ mode \in Modes
         /\ lst \in (IF mode = "pay" THEN {CHOOSE l \in Listen : \A m \in Listen : l.addr <= m.addr} ELSE Listen)
-        /\ sci \in (CASE mode = "cont" -> StartCi [] mode = "unit" -> {254} [] mode = "pay" -> PayCi) /\ rci = -1 /\ lost = FALSE /\ out = <<>> /\ gap = NoGap /\ seen = FALSE
+        /\ sci \in (CASE mode = "cont" -> StartCi [] mode = "unit" -> {254} [] mode = "pay" -> PayCi [] mode = "mix" -> {254}) /\ rci = -1 /\ lost = FALSE /\ out = <<>> /\ gap = NoGap /\ seen = FALSE
         /\ npk = 0 /\ lastAct = [a |-> "init"]
 
 \* what the receiver delivers for a packet it takes: the user data the sender put into it
@@ -228,10 +238,18 @@ Other(kind) ==
   /\ npk' = npk + 1 /\ lastAct' = [a |-> "Other", kind |-> kind]
   /\ out' = <<>> /\ UNCHANGED <<sci, rci, lost, gap, seen, lst, mode>>
 
+\* an unrelated Teletext packet of kind k whose body is that of the packet the selected service would send next: it changes
+\* nothing (no delivery, the sender's counter and the receiver's expectation stay, no loss)
+Mix(k) ==
+  /\ npk' = npk + 1
+  /\ lastAct' = [a |-> "Mix", mag |-> k.mag, no |-> k.no, ci |-> sci, it |-> Item(Dest(lst), 4, MinLen(lst), FALSE, P0, NoFault)]
+  /\ out' = <<>> /\ UNCHANGED <<sci, rci, lost, gap, seen, lst, mode>>
+
 Next == /\ npk < ModeLen(mode)
         /\ \/ \E it \in Stage(mode, npk + 1, lst) : Send(it)
            \/ mode = "cont" /\ Other("ttx")
            \/ mode = "cont" /\ \E k \in Bursts : Burst(k)
+           \/ mode = "mix" /\ npk = 1 /\ \E k \in MixKinds(lst) : Mix(k)
 Spec == Init /\ [][Next]_vars
 
 -----------------------------------------------------------------------------
@@ -244,6 +262,8 @@ FlagAfterLoss     == [][\A i \in 1..Len(out') : (IsGap /\ seen) => out'[i].lost]
 NothingForeign    == [][(Sent /\ ~lastAct'.own) => out' = <<>>]_vars
 \* a packet failing its CRC or Hamming check is never delivered, a dropped one neither; a corrected one is
 DeliveredIff      == [][Sent => ((out' # <<>>) <=> (lastAct'.own /\ (lastAct'.it.flt.u = "none" \/ lastAct'.it.flt.k = "err1")))]_vars
+\* unrelated Teletext packets change nothing: both neighbours are delivered, without DATA_LOST
+MixNeutral        == [][(mode = "mix" /\ Sent) => (Len(out') = 1 /\ ~out'[1].lost)]_vars
 DepPassed         == [][(Sent /\ out' # <<>>) => out'[1].dep = lastAct'.it.dep]_vars
 \* exactly the sent bytes, for every payload, format and address length: the dummy bytes are where 6.5.7.1 puts them (behind
 \* 8 equal bytes 0x00 / 0xFF) and nowhere else, the receiver rule (drop the byte behind 8 equal bytes) gives back the user
